@@ -1,5 +1,6 @@
 /- Line-protocol driver for C06 (glyph names, encodings, ToUnicode, simple fonts). -/
 import PdfVerif.Spec.SimpleFontTables
+import PdfVerif.Lemmas.Type1Roundtrip
 
 open PdfVerif PdfVerif.SimpleFont PdfVerif.SimpleFont.Inst
 
@@ -153,17 +154,77 @@ def parseFont (ws : List String) : Option RawFontDict := do
       let bs ← bytesOfHex hx
       some (some { missingWidth := mw, fontFile := some { data := bs, length1 := l1 } : DescriptorOf RawFontFile }, ws))
   let (_, ws) ← expect "M" ws
+  -- the FontMatrix entry as it stands in the file: `none` (absent) | `notlist` | `[` e1 … en `]` with e = rational | `x`;
+  -- the model (`type3Matrix`) decides whether it is usable
   let (fm, ws) ← (match ws with
-    | ["none"] => some (((1 : Rat) / 1000, 0, 0, (1 : Rat) / 1000, 0, 0), ([] : List String))
-    | _ => do
-      let (xs, ws) ← pMany pRat 6 ws
-      match xs with
-      | [a, b, c, d, e, f] => some ((a, b, c, d, e, f), ws)
-      | _ => none)
+    | ["none"] => some (type3Matrix .absent, ([] : List String))
+    | ["notlist"] => some (type3Matrix .notList, ([] : List String))
+    | "[" :: rest =>
+      match rest.getLast? with
+      | some "]" =>
+        match (rest.dropLast).mapM (fun w => if w == "x" then some (none : Option Rat) else (ratOfString w).map some) with
+        | some xs => some (type3Matrix (.list xs), ([] : List String))
+        | none => none
+      | _ => none
+    | _ => none)
   if !ws.isEmpty then none else
   let isT3 ← simpleClass (if sub == "absent" then none else some sub)   -- `get_font` dispatch (composite: not C06)
   some { isType3 := isT3, baseFont := baseFont, enc := enc, toUnicode := tu, firstChar := fc,
          widths := widths, desc := desc, fontMatrix := fm }
+
+
+/-! ### `t1write`: spelled Type 1 headers (the writer of theorem `t1_roundtrip`) -/
+open PdfVerif.Lexer in
+def parseSep (w : String) : Option (List SepItem) :=
+  if w == "-" then some [] else
+  (w.splitOn ",").mapM (fun it =>
+    match it.toList with
+    | 'w' :: h => match bytesOfHexChars h with | some [c] => some (SepItem.ws c) | _ => none
+    | 'c' :: r =>
+      match (String.ofList r).splitOn ":" with
+      | [b, e] => match bytesOfHex b, bytesOfHex e with
+        | some body, some [eol] => some (SepItem.comment body eol)
+        | _, _ => none
+      | _ => none
+    | _ => none)
+
+open PdfVerif.Lexer in
+def parseSpelledName (w : String) : Option (List NameItem) :=
+  if w == "-" then some [] else
+  (w.splitOn ",").mapM (fun it =>
+    match it.toList with
+    | 'r' :: h => match bytesOfHexChars h with | some [c] => some (NameItem.raw c) | _ => none
+    | 'e' :: h => match bytesOfHexChars h with | some [a, b] => some (NameItem.esc a b) | _ => none
+    | _ => none)
+
+def parseSign (w : String) : Option Bytes :=
+  if w == "n" then some [] else if w == "p" then some [43] else if w == "m" then some [45] else none
+
+def parseHeaderItem (w : String) : Option HeaderItem :=
+  match w.splitOn "|" with
+  | ["P", sg, ds, nm, a, b, c, d] => do
+    let sign ← parseSign sg
+    let name ← parseSpelledName nm
+    let g1 ← parseSep a
+    let g2 ← parseSep b
+    let g3 ← parseSep c
+    let g4 ← parseSep d
+    some (.put { sign := sign, digits := ds.toUTF8.toList, name := name, g1 := g1, g2 := g2, g3 := g3, g4 := g4 })
+  | ["W", hx, g] => do
+    let bs ← bytesOfHex hx
+    let g ← parseSep g
+    match bs with
+    | c :: w => some (.word c w g)
+    | [] => none
+  | ["N", sg, ds, g] => do
+    let sign ← parseSign sg
+    let g ← parseSep g
+    some (.num sign ds.toUTF8.toList g)
+  | _ => none
+
+def showPuts (ps : List (Int × Option Name)) : String :=
+  if ps.isEmpty then "-" else " ".intercalate (ps.map (fun p => toString p.1 ++ ":" ++
+    (match p.2 with | some n => showNameArg n | none => "b")))
 
 def codes256 : List Int := (List.range 256).map Int.ofNat
 
@@ -183,6 +244,14 @@ def handle (line : String) : String :=
       match name2unicode glyphs nm with
       | some t => "V " ++ cpsStr t
       | none => "E key"
+    | none => "bad-op"
+  | ["aglx", a] =>
+    -- the exact algorithm (AGL + lower-case digits + unknown component => undefined) of `name2unicode_exact`
+    match parseNameArg a with
+    | some nm =>
+      match Spec.pdfminerAgl glyphs nm with
+      | some t => "V " ++ cpsStr t
+      | none => "N"
     | none => "bad-op"
   | ["agl", a] =>
     match parseNameArg a with
@@ -229,10 +298,17 @@ def handle (line : String) : String :=
       | .error _ => "O"
       | .ok fd =>
         " ".intercalate (codes256.map (fun c =>
-          if Spec.judgedCode tables fd c then
-            cpsStr (Spec.specText tables fd c) ++ "|" ++ ratToString (Spec.specWidth tables fd c)
-          else "?"))
+          -- the FULL specification (every code judged); `!` marks a cell outside the property's AGL domain
+          (if Spec.judgedCodeX tables fd c then "" else "!") ++
+            cpsStr (Spec.specTextP tables fd c) ++ "|" ++ ratToString (Spec.specWidthP tables fd c)))
     | none => "bad-op"
+  | "t1write" :: padw :: itemws =>
+    -- the header `writeHeader` writes for a spelling, and the right-hand side of theorem `t1_roundtrip`
+    match parseSep padw, itemws.mapM parseHeaderItem with
+    | some pad, some items =>
+      hexOrDash (writeHeader pad items) ++ " " ++
+        showPuts ((itemResults items).map (fun r => (r.1, utf8Chars r.2)))
+    | _, _ => "bad-op"
   | ["t1puts", hx] =>
     match bytesOfHex hx with
     | some bs =>
